@@ -188,7 +188,7 @@ pub fn generate(ctx: &mut Ctx) {
         }
     }
     // the seconds around daylight-saving transitions, incl. the repeated local hour
-    for dt in gen::dst_edge_datetimes() {
+    for dt in gen::dst_edge_datetimes().into_iter().chain(gen::leap_datetimes()) {
         ctx.case("wf:dst", &vx::show(&Value::DateTime(dt)));
     }
     // zone offsets with seconds (local mean time): the written offset has minute precision
